@@ -88,27 +88,44 @@ def UndoOk (g : Graph) (undo : List Cmd) : Prop :=
     | .insertAlias id a => 0 < id ∧ g.isNode id.toNat = true ∧ a ≠ "-"
     | .removeAlias _ => True
 
+theorem ownerUndo_ok (g : Graph) (al : IMap) (h : AliasOk g al) (a : Alias) : UndoOk g (Db.ownerUndo al a) := by
+  unfold Db.ownerUndo
+  cases hv : al.value a with
+  | none => intro c hc; cases hc
+  | some owner =>
+    intro c hc
+    simp only [List.mem_singleton] at hc
+    subst hc
+    exact h.live a owner hv
+
+theorem UndoOk.append {g : Graph} {l1 l2 : List Cmd} (h1 : UndoOk g l1) (h2 : UndoOk g l2) :
+    UndoOk g (l1 ++ l2) := by
+  intro c hc
+  rcases List.mem_append.mp hc with hc | hc
+  · exact h1 c hc
+  · exact h2 c hc
+
 theorem insertAlias_ok (g : Graph) (al : IMap) (h : AliasOk g al) (i : Int) (a : Alias)
     (hi : 0 < i) (hn : g.isNode i.toNat = true) (ha : a ≠ "-") :
     AliasOk g (Db.insertAlias al i a).1 ∧ UndoOk g (Db.insertAlias al i a).2 := by
+  have hrem : UndoOk g [Cmd.removeAlias a] := by
+    intro c hc
+    simp only [List.mem_singleton] at hc
+    subst hc; trivial
   unfold Db.insertAlias
   cases hk : al.key i with
   | none =>
     simp only
-    refine ⟨h.insert a i hi hn ha, ?_⟩
-    intro c hc
-    simp only [List.mem_singleton] at hc
-    subst hc; trivial
+    exact ⟨h.insert a i hi hn ha, (ownerUndo_ok g al h a).append hrem⟩
   | some old =>
     simp only
-    refine ⟨((h.removeKey old).removeKey old).insert a i hi hn ha, ?_⟩
+    have h1 := (h.removeKey old).removeKey old
+    refine ⟨h1.insert a i hi hn ha, UndoOk.append (UndoOk.append ?_ (ownerUndo_ok g _ h1 a)) hrem⟩
     intro c hc
-    simp only [List.mem_cons, List.mem_singleton, List.not_mem_nil, or_false] at hc
-    rcases hc with e | e
-    · subst e
-      have h1 : AMap.get al.k2v old = some i := (h.inv old i).mpr hk
-      exact ⟨hi, hn, (h.live old i h1).2.2⟩
-    · subst e; trivial
+    simp only [List.mem_singleton] at hc
+    subst hc
+    have h2 : AMap.get al.k2v old = some i := (h.inv old i).mpr hk
+    exact ⟨hi, hn, (h.live old i h2).2.2⟩
 
 theorem rollback_ok (g : Graph) (undo : List Cmd) :
     ∀ al, AliasOk g al → UndoOk g undo → AliasOk g (Db.rollback al undo) := by
